@@ -242,3 +242,15 @@ Example C03_hostile_input :   (* totality on garbage: a lone closing tag, an unm
   decode T_ReadAccessResult [mkTag 1 0 4 [0;0;0;1]; mkTag 2 1 0 []; mkTag 2 9 0 []] = Err InvalidTag.
 Proof. split; vm_compute; reflexivity. Qed.
 
+Definition canon_val_len (r : res val) : option nat :=
+  match r with Ok (VList vs) => Some (length vs) | _ => None end.
+
+(* a list keeps every one of its entries, equal ones included (multiplicity is part of the round trip):
+   three equal Unsigned, and Real 0.0 / -0.0 / 0.0 *)
+Example C03_list_keeps_duplicates :
+  cast_out (TSeqOf (TAtom 2)) [mkTag 0 2 1 [7]; mkTag 0 2 1 [7]; mkTag 0 2 1 [7]]
+    = Ok (VList [VAtom (mkTag 0 2 1 [7]); VAtom (mkTag 0 2 1 [7]); VAtom (mkTag 0 2 1 [7])]) /\
+  canon_val_len (cast_out (TSeqOf (TAtom 4))
+    [mkTag 0 4 4 [0;0;0;0]; mkTag 0 4 4 [128;0;0;0]; mkTag 0 4 4 [0;0;0;0]]) = Some 3%nat.
+Proof. split; vm_compute; reflexivity. Qed.
+
